@@ -41,21 +41,21 @@ UNIT = Unit(
            ensures=[C("canonical", "res == spec_req_key(data@)", "C15", "C01")]),
         Fn(M, "get_swap_transactions", home="C15", implicit_props=("C09", "C15"),
            requires=[C("wf", "state.coins.wf()")],
-           ensures=[C("selected", "selected(state.transactions@, res@, swap_pred(*state))", "C15", "C01")],
+           ensures=[C("selected", "selected(state.transactions@, res@, swap_pred(*state))", "C15", "C01", "C16")],
            rewrites=[("ANF", "collect", 0, 4, {2: sel_proof("is_swap_req", "swap_pred(*state)")})],
-           closures=[Closure(0, "tx: Transaction", "(r: Option<Transaction>)", ensures=[C("pred", "r == (if is_swap_req(*state, tx) { Some(tx) } else { None::<Transaction> })", "C15")])]),
+           closures=[Closure(0, "tx: Transaction", "(r: Option<Transaction>)", ensures=[C("pred", "r == (if is_swap_req(*state, tx) { Some(tx) } else { None::<Transaction> })", "C15", "C16", "C01")])]),
         Fn(M, "get_deposit_transactions", home="C15", implicit_props=("C09", "C15"),
            requires=[C("wf", "state.coins.wf()")],
-           ensures=[C("selected", "selected(state.transactions@, res@, deposit_pred(*state))", "C15", "C01")],
+           ensures=[C("selected", "selected(state.transactions@, res@, deposit_pred(*state))", "C15", "C01", "C16")],
            rewrites=[("ANF", "collect", 0, 4, {2: sel_proof("is_deposit_req", "deposit_pred(*state)")})],
-           closures=[Closure(0, "tx: Transaction", "(r: Option<Transaction>)", ensures=[C("pred", "r == (if is_deposit_req(*state, tx) { Some(tx) } else { None::<Transaction> })", "C15")])]),
+           closures=[Closure(0, "tx: Transaction", "(r: Option<Transaction>)", ensures=[C("pred", "r == (if is_deposit_req(*state, tx) { Some(tx) } else { None::<Transaction> })", "C15", "C16", "C01")])]),
         Fn(M, "get_withdrawal_transactions", home="C15", implicit_props=("C09", "C15"),
            requires=[C("wf", "state.coins.wf()")],
-           ensures=[C("selected", "selected(state.transactions@, res@, withdraw_pred(*state))", "C15", "C01")],
+           ensures=[C("selected", "selected(state.transactions@, res@, withdraw_pred(*state))", "C15", "C01", "C16")],
            rewrites=[("ANF", "collect", 0, 4, {2: sel_proof("is_withdraw_req", "withdraw_pred(*state)")})],
-           closures=[Closure(0, "tx: Transaction", "(r: Option<Transaction>)", ensures=[C("pred", "r == (if is_withdraw_req(*state, tx) { Some(tx) } else { None::<Transaction> })", "C15")])]),
+           closures=[Closure(0, "tx: Transaction", "(r: Option<Transaction>)", ensures=[C("pred", "r == (if is_withdraw_req(*state, tx) { Some(tx) } else { None::<Transaction> })", "C15", "C16", "C01")])]),
         Fn(M, "extract_pool_keys_sorted", home="C15", implicit_props=("C09", "C15", "C16"), **mm_extract_pool_keys(),
-           rewrites=[("PIPE",), ("SUB", "v.sort();", "pk_sort(&mut v);"), ("SUB", "v.dedup();", "pk_dedup(&mut v);"), ("ANF", "collect", 0, 3, {}, "K"), ("ROOT", "iter", 0, "slice_iter", False)],
+           rewrites=[("PIPE",), ("SUBALL", r"\b(\w+)\.sort(?:_unstable)?\(\);", "pk_sort(&mut ${1});"), ("SUBALL", r"\b(\w+)\.dedup\(\);", "pk_dedup(&mut ${1});"), ("ANF", "collect", 0, 3, {}, "K"), ("ROOT", "iter", 0, "slice_iter", False)],
            closures=[Closure(0, "tx: &Transaction", "(r: Option<PoolKey>)", ensures=[C("key", "r == spec_req_key(tx.data@)", "C15")])],
            injects=[Inject(("after_let", "v"), """let ghost v0 = v@; let ghost txs = transactions@;
                         proof { let opts = choose|opts: Seq<Option<PoolKey>>| #[trigger] filter_map_decided(__clK1, __cK0@, __cK1@, opts);
@@ -70,7 +70,8 @@ UNIT = Unit(
                     Inject(("after_stmt", "pk_sort(&mut v);"), """let ghost sv = v@;
                         proof { v0.to_multiset_ensures(); sv.to_multiset_ensures();
                             assert forall|k: PoolKey| #[trigger] sv.contains(k) <==> v0.contains(k) by { assert(sv.to_multiset().count(k) == v0.to_multiset().count(k)); } }"""),
-                    Inject(("after_stmt", "pk_dedup(&mut v);"), "proof { lemma_dedup_sorted(sv); }")]),
+                    Inject(("before", "pk_dedup(&mut v);"), "let ghost pd = v@;"),
+                    Inject(("after_stmt", "pk_dedup(&mut v);"), "proof { lemma_dedup_sorted(pd); }")]),
         Fn(M, "transactions_for_pool", home="C15", implicit_props=("C09", "C15"), **mm_transactions_for_pool(),
            rewrites=[("ANF", "collect", 0, 4, {2: """proof { let b = choose|b: spec_fn(&Transaction) -> bool| #[trigger] filter_decided(__clT1, __cT0@, __cT1@, b);
                    let p = for_pool(*pool_key);
@@ -113,26 +114,26 @@ UNIT = Unit(
                    lemma_swaps_settled_step(c0, cb, swaps0, i, *pool, lw, rw, tl, tr, st0.height, d); }""",
                invariants=[
                    C("len", "swaps@.len() == n0 && __n == n0 && n0 == swaps0.len() && swaps_pre(swaps0, *pool) && (forall|j: int| __i <= j < n0 ==> #[trigger] swaps@[j] == swaps0[j])", "C15"),
-                   C("totals", "total_lefts as int == tl && total_rights as int == tr && tl == side_total(swaps0, pool.left, n0) && tr == side_total(swaps0, pool.right, n0) && lw == left_withdrawn as int && rw == right_withdrawn as int", "C15"),
+                   C("totals", "total_lefts as int == tl && total_rights as int == tr && tl == side_total(swaps0, pool.left, n0) && tr == side_total(swaps0, pool.right, n0) && lw == left_withdrawn as int && rw == right_withdrawn as int", "C15", "C01"),
                    C("settled", "swaps_settled(c0, state.coins@.coins, swaps0, __i as int, *pool, lw, rw, tl, tr, st0.height)", "C15", "C01"),
                    C("inv", "state.coins.wf() && (spec_tip906(st0) ==> counts_ok(state.coins@)) && origin_ok(state.coins@.coins) && (!spec_tip906(st0) ==> state.coins@.counts == st0.coins@.counts)", "C20"),
                    C("frame", "pool_phase_frame(st0, *state) && state.fee_pool == st0.fee_pool && state.pools == st0.pools && state.height == st0.height && state.network == st0.network", "C15"),
                ])],
-           closures=[Closure(0, "tx: &Transaction", "(r: CoinValue)", requires=[C("has0", "tx.outputs@.len() > 0")], ensures=[C("left", "r.0 as int == req_value(*tx, pool.left)", "C15")]),
-                     Closure(1, "a: u128, b: CoinValue", "(r: u128)", ensures=[C("satl", "r as int == sat128(a + b.0)", "C15")]),
-                     Closure(2, "tx: &Transaction", "(r: CoinValue)", requires=[C("has0r", "tx.outputs@.len() > 0")], ensures=[C("right", "r.0 as int == req_value(*tx, pool.right)", "C15")]),
-                     Closure(3, "a: u128, b: CoinValue", "(r: u128)", ensures=[C("satr", "r as int == sat128(a + b.0)", "C15")])]),
+           closures=[Closure(0, "tx: &Transaction", "(r: CoinValue)", requires=[C("has0", "tx.outputs@.len() > 0")], ensures=[C("left", "r.0 as int == req_value(*tx, pool.left)", "C15", "C01")]),
+                     Closure(1, "a: u128, b: CoinValue", "(r: u128)", ensures=[C("satl", "r as int == sat128(a + b.0)", "C15", "C01")]),
+                     Closure(2, "tx: &Transaction", "(r: CoinValue)", requires=[C("has0r", "tx.outputs@.len() > 0")], ensures=[C("right", "r.0 as int == req_value(*tx, pool.right)", "C15", "C01")]),
+                     Closure(3, "a: u128, b: CoinValue", "(r: u128)", ensures=[C("satr", "r as int == sat128(a + b.0)", "C15", "C01")])]),
         Fn(C_, "remove_coin", impl="CoinMapping", mode="assume", **cm_remove_coin()),
         Fn(M, "process_deposits_for_single_pool", home="C15", implicit_props=("C09", "C15", "C16", "C01"), **mm_deposits_single(),
            uses="group_core_axioms, axiom_isqrt",
            rewrites=[("R3", 0), ("ROOT", "iter", 0, "slice_iter", False), ("ANF", "fold", 0, 2, {}, "L"), ("ROOT", "iter", 0, "slice_iter", False), ("ANF", "fold", 1, 2, {}, "R"),
                      ("ROOT", "iter", 0, "slice_iter", False), ("ANF", "fold", 2, 2, {}, "W")],
-           closures=[Closure(0, "tx: &Transaction", "(r: u128)", requires=[C("has0", "tx.outputs@.len() > 0")], ensures=[C("v0", "r == tx.outputs@[0].value.0", "C15")]),
-                     Closure(1, "a: u128, b: u128", "(r: u128)", ensures=[C("sat0", "r as int == sat128(a + b)", "C15")]),
-                     Closure(2, "tx: &Transaction", "(r: u128)", requires=[C("has1", "tx.outputs@.len() > 1")], ensures=[C("v1", "r == tx.outputs@[1].value.0", "C15")]),
-                     Closure(3, "a: u128, b: u128", "(r: u128)", ensures=[C("sat1", "r as int == sat128(a + b)", "C15")]),
-                     Closure(4, "tx: &Transaction", "(r: u128)", requires=[C("has2", "tx.outputs@.len() > 1")], ensures=[C("w", "r as int == dep_weight(*tx)", "C15")]),
-                     Closure(5, "a: u128, b: u128", "(r: u128)", ensures=[C("sat2", "r as int == sat128(a + b)", "C15")])],
+           closures=[Closure(0, "tx: &Transaction", "(r: u128)", requires=[C("has0", "tx.outputs@.len() > 0")], ensures=[C("v0", "r == tx.outputs@[0].value.0", "C15", "C01")]),
+                     Closure(1, "a: u128, b: u128", "(r: u128)", ensures=[C("sat0", "r as int == sat128(a + b)", "C15", "C01")]),
+                     Closure(2, "tx: &Transaction", "(r: u128)", requires=[C("has1", "tx.outputs@.len() > 1")], ensures=[C("v1", "r == tx.outputs@[1].value.0", "C15", "C01")]),
+                     Closure(3, "a: u128, b: u128", "(r: u128)", ensures=[C("sat1", "r as int == sat128(a + b)", "C15", "C01")]),
+                     Closure(4, "tx: &Transaction", "(r: u128)", requires=[C("has2", "tx.outputs@.len() > 1")], ensures=[C("w", "r as int == dep_weight(*tx)", "C15", "C01")]),
+                     Closure(5, "a: u128, b: u128", "(r: u128)", ensures=[C("sat2", "r as int == sat128(a + b)", "C15", "C01")])],
            injects=[Inject("entry", """let ghost deps0 = deposits@; let ghost st0 = *state; let ghost c0 = state.coins@.coins; let ghost n0 = deposits@.len() as int;
                         let ghost legacy = deposit_legacy(state.network, state.height);"""),
                     Inject(("after_let", "total_lefts"), """proof { let accs = choose|accs: Seq<u128>| #[trigger] fold_decided(__clL1, __cL0@, 0u128, accs) && total_lefts == accs[__cL0@.len() as int];
@@ -167,7 +168,7 @@ UNIT = Unit(
                        lemma_deps_settled_step(c0, cb, deps0, i, *pool, minted, div, st0.height, d); } }""",
                invariants=[
                    C("len", "deposits@.len() == n0 && __n == n0 && n0 == deps0.len() && deposits_pre(deps0, *pool) && (forall|j: int| __i <= j < n0 ==> #[trigger] deposits@[j] == deps0[j])", "C15"),
-                   C("consts", "total_liqs as int == minted && total_mtsqrt as int == div && (n0 > 0 ==> div >= 1) && legacy == deposit_legacy(st0.network, st0.height)", "C15"),
+                   C("consts", "total_liqs as int == minted && total_mtsqrt as int == div && (n0 > 0 ==> div >= 1) && legacy == deposit_legacy(st0.network, st0.height)", "C15", "C01"),
                    C("settled", "!legacy ==> deps_settled(c0, state.coins@.coins, deps0, __i as int, *pool, minted, div, st0.height)", "C15", "C01"),
                    C("idsi", "forall|id: CoinID| #[trigger] state.coins@.coins.contains_key(id) ==> c0.contains_key(id) || exists|q: int| 0 <= q < __i && id == cid(#[trigger] deps0[q], 0)", "C15"),
                    C("inv", "state.coins.wf() && (spec_tip906(st0) ==> counts_ok(state.coins@)) && origin_ok(state.coins@.coins) && (!spec_tip906(st0) ==> state.coins@.counts == st0.coins@.counts)", "C20"),
@@ -175,8 +176,8 @@ UNIT = Unit(
                ])]),
         Fn(M, "process_withdrawals_for_single_pool", home="C15", implicit_props=("C09", "C15", "C16", "C01"), **mm_withdrawals_single(),
            rewrites=[("R3", 0), ("ROOT", "iter", 0, "slice_iter", False), ("ANF", "fold", 0, 2, {}, "Q")],
-           closures=[Closure(0, "tx: &Transaction", "(r: u128)", requires=[C("has0", "tx.outputs@.len() > 0")], ensures=[C("v0", "r == tx.outputs@[0].value.0", "C15")]),
-                     Closure(1, "a: u128, b: u128", "(r: u128)", ensures=[C("sat0", "r as int == sat128(a + b)", "C15")])],
+           closures=[Closure(0, "tx: &Transaction", "(r: u128)", requires=[C("has0", "tx.outputs@.len() > 0")], ensures=[C("v0", "r == tx.outputs@[0].value.0", "C15", "C01")]),
+                     Closure(1, "a: u128, b: u128", "(r: u128)", ensures=[C("sat0", "r as int == sat128(a + b)", "C15", "C01")])],
            injects=[Inject("entry", "let ghost reqs0 = relevant_txx@; let ghost st0 = *state; let ghost c0 = state.coins@.coins; let ghost n0 = relevant_txx@.len() as int; let ghost vals = out_vals(relevant_txx@, 0);"),
                     Inject(("after_let", "total_liqs"), """let ghost q = total_liqs as int;
                         proof { let accs = choose|accs: Seq<u128>| #[trigger] fold_decided(__clQ1, __cQ0@, 0u128, accs) && total_liqs == accs[__cQ0@.len() as int];
@@ -196,7 +197,7 @@ UNIT = Unit(
                    lemma_wds_settled_step(c0, cb, reqs0, i, *pool, wl, wr, q, st0.height, a, b); }""",
                invariants=[
                    C("len", "relevant_txx@.len() == n0 && __n == n0 && n0 == reqs0.len() && withdrawals_pre(reqs0, *pool) && vals == out_vals(reqs0, 0) && (forall|j: int| __i <= j < n0 ==> #[trigger] relevant_txx@[j] == reqs0[j])", "C15"),
-                   C("consts", "total_liqs as int == q && q == true_sum(vals, n0) && q >= 1 && total_left as int == wl && total_write as int == wr", "C15"),
+                   C("consts", "total_liqs as int == q && q == true_sum(vals, n0) && q >= 1 && total_left as int == wl && total_write as int == wr", "C15", "C01"),
                    C("fresh", "forall|j: int| 0 <= j < n0 ==> !c0.contains_key(cid(#[trigger] reqs0[j], 1))", "C20"),
                    C("settled", "wds_settled(c0, state.coins@.coins, reqs0, __i as int, *pool, wl, wr, q, st0.height)", "C15", "C01"),
                    C("inv", "state.coins.wf() && (spec_tip906(st0) ==> counts_ok(state.coins@)) && origin_ok(state.coins@.coins) && (!spec_tip906(st0) ==> state.coins@.counts == st0.coins@.counts)", "C20"),
@@ -258,7 +259,7 @@ UNIT = Unit(
                          && selected(s0.transactions@, reqs, deposit_pred(s0)) && legacy == deposit_legacy(s0.network, s0.height)""", "C15"),
                    C("frame", "pool_phase_frame(s0, st) && st.fee_pool == s0.fee_pool && st.height == s0.height && st.network == s0.network", "C15", "C17"),
                    C("inv", "st.coins.wf() && (spec_tip906(s0) ==> counts_ok(st.coins@)) && origin_ok(st.coins@.coins) && (!spec_tip906(s0) ==> st.coins@.counts == s0.coins@.counts)", "C20"),
-                   C("done", "deps_done(s0.pools@, c0, s0.height, legacy, reqs, done_set(pools@, it.index@ as int), mint, st.pools@, st.coins@.coins)", "C15", "C01"),
+                   C("done", "deps_done(s0.pools@, c0, s0.height, legacy, reqs, done_set(pools@, it.index@ as int), mint, st.pools@, st.coins@.coins)", "C15", "C01", "C03"),
                    C("ids", "ids_sub(c0, st.coins@.coins)", "C16"),
                ])]),
         Fn(M, "process_withdrawals", home="C15", implicit_props=("C09", "C15", "C16", "C01"), **mm_process_withdrawals(),
@@ -314,7 +315,7 @@ UNIT = Unit(
                          && selected(s0.transactions@, reqs, withdraw_pred(s0))""", "C15"),
                    C("frame", "pool_phase_frame(s0, st) && st.fee_pool == s0.fee_pool && st.height == s0.height && st.network == s0.network", "C15", "C17"),
                    C("inv", "st.coins.wf() && (spec_tip906(s0) ==> counts_ok(st.coins@)) && origin_ok(st.coins@.coins) && (!spec_tip906(s0) ==> st.coins@.counts == s0.coins@.counts)", "C20"),
-                   C("done", "wds_done(s0.pools@, c0, s0.height, reqs, done_set(pools@, it.index@ as int), wl, wr, st.pools@, st.coins@.coins)", "C15", "C01"),
+                   C("done", "wds_done(s0.pools@, c0, s0.height, reqs, done_set(pools@, it.index@ as int), wl, wr, st.pools@, st.coins@.coins)", "C15", "C01", "C03"),
                ])]),
         Fn(M, "dosc_inflator", mode="assume", **mm_dosc_inflator()),
         Fn(M, "process_pegging", home="C16", implicit_props=("C09", "C16", "C01"), **mm_process_pegging(),
@@ -369,7 +370,7 @@ UNIT = Unit(
                          && (forall|k: PoolKey| #[trigger] pools@.contains(k) <==> mentions(reqs, k)) && state_inv(s0) && builtins_live(s0) && pools_ok(s0.pools@)""", "C15"),
                    C("frame", "pool_phase_frame(s0, st) && st.fee_pool == s0.fee_pool && st.height == s0.height && st.network == s0.network", "C15", "C17"),
                    C("inv", "st.coins.wf() && (spec_tip906(s0) ==> counts_ok(st.coins@)) && origin_ok(st.coins@.coins) && (!spec_tip906(s0) ==> st.coins@.counts == s0.coins@.counts)", "C20"),
-                   C("done", "swaps_done(s0.pools@, c0, s0.height, reqs, done_set(pools@, it.index@ as int), st.pools@, st.coins@.coins)", "C15", "C01"),
+                   C("done", "swaps_done(s0.pools@, c0, s0.height, reqs, done_set(pools@, it.index@ as int), st.pools@, st.coins@.coins)", "C15", "C01", "C03"),
                ])]),
         Fn(SM, "val_iter", impl="SmtMapping", mode="assume", wrap=SMT_WRAP, sig_subst=[("impl Iterator<Item = V> + '_", "Vec<V>")], **smt_val_iter()),
         Fn(M, "preseal_melmint", home="C16", implicit_props=("C09", "C16", "C15"), **mm_preseal(),
